@@ -4,7 +4,8 @@
 # seeded/<id>/caught_by (one property id per line; empty = missed by all).
 here=$(cd "$(dirname "$0")/.." && pwd)
 export GOFLAGS=-mod=mod GOPROXY=off GOSUMDB=off GOTOOLCHAIN=local; unset GOWORK
-(cd "$here" && go build -o bin/kinlint ./cmd/kinlint) || exit 2
+if [ -z "${KINLINT_BIN:-}" ]; then (cd "$here" && go build -o bin/kinlint ./cmd/kinlint) || exit 2; KINLINT_BIN="$here/bin/kinlint"; fi
+export KINLINT_BIN
 dirs=${@:-$here/seeded/*}
 one() {
   d=$1
@@ -13,8 +14,8 @@ one() {
   if ! (cd "$scratch" && git init -q . && git apply "$d/patch.diff" 2>/dev/null); then echo "$(basename $d): patch does not apply"; rm -rf "$scratch"; return; fi
   own=$(basename "$d" | cut -d- -f1)
   : > "$d/caught_by.tmp"; : > "$d/caught_rules.tmp"
-  for p in $("$here/bin/kinlint" -list); do
-    out=$("$here/bin/kinlint" -property "$p" -tier quick -dir "$scratch" -verif "$here" -no-evidence 2>&1)
+  for p in $("$KINLINT_BIN" -list); do
+    out=$("$KINLINT_BIN" -property "$p" -tier quick -dir "$scratch" -verif "$here" -no-evidence 2>&1)
     if echo "$out" | grep -q '^VIOLATION'; then
       echo "$p" >> "$d/caught_by.tmp"
       echo "$out" | grep -E '^\s+(VIOLATED|UNDECIDED)' | grep -oE 'C[0-9]{2}\.[a-z0-9-]+' | sort -u >> "$d/caught_rules.tmp"
@@ -26,4 +27,4 @@ one() {
   rm -rf "$scratch"
 }
 export -f one; export here
-printf '%s\n' $dirs | xargs -P 6 -I{} bash -c 'one {}'
+printf '%s\n' $dirs | xargs -P ${SEED_JOBS:-6} -I{} bash -c 'one {}'
